@@ -1252,6 +1252,15 @@ fn stress_case(seed: u64, index: u64) -> Case {
         Op::Len(0),
         Op::Push(1, 9),
         Op::Swap(1, 0, 1),
+        // the Rust-side walks over the whole buffer, and the script-side ones
+        Op::ToVec(0),
+        Op::ToVec(0),
+        Op::EqTyped(0, 1),
+        Op::EqTyped(1, 0),
+        Op::Eq(0, 1),
+        Op::Index(0, 4),
+        Op::Concat(0, 1),
+        Op::Concat(0, 0),
     ];
     let mut progs = vec![];
     for t in 0..2 {
@@ -1263,7 +1272,9 @@ fn stress_case(seed: u64, index: u64) -> Case {
         progs.push(p);
     }
     let len0 = *rng.pick(&[4usize, 4, 4, 8]);
-    Case { lists: vec![(1..=len0 as u64).collect(), vec![5, 6, 7, 8]], progs, elem: false }
+    // list 1: now and then equal to list 0, so that `==` walks to the end
+    let l1: Vec<u64> = if rng.chance(1, 3) { (1..=len0 as u64).collect() } else { vec![5, 6, 7, 8] };
+    Case { lists: vec![(1..=len0 as u64).collect(), l1], progs, elem: false }
 }
 
 /// spawn a thread; if the machine is out of threads for a moment, wait and try again
@@ -1321,7 +1332,13 @@ fn run_stress_trial(case: &Case, spin: [u32; 2]) -> (Vec<Vec<Res>>, Vec<Vec<u64>
                         Res::Unit
                     }
                     Op::Len(l) => Res::Nat(lists[*l].len()),
-                    _ => Res::Unit,
+                    Op::ToVec(l) => Res::List(lists[*l].to_vec()),
+                    Op::EqTyped(a, b) => Res::Bool(lists[*a] == lists[*b]),
+                    Op::Eq(a, b) => Res::Bool(hk::erased_eq_u64(&lists[*a], &lists[*b])),
+                    Op::Index(l, v) => Res::Opt(lists[*l].index(v).map(|i| i as u64)),
+                    Op::IsEmpty(l) => Res::Bool(lists[*l].is_empty()),
+                    Op::Concat(a, b) => Res::List(lists[*a].concat(&lists[*b]).to_vec()),
+                    Op::Clone(_) | Op::Drop(_) => Res::Unit,
                 });
             }
             out
@@ -1631,7 +1648,7 @@ fn main() {
                     });
                     off += chunk;
                 }
-                rep.notes.push(format!("stress: {stress} free-running races of 2 threads x 1-2 operations (push/swap/get/contains/len) on lists at a capacity boundary, each checked against every sequential order"));
+                rep.notes.push(format!("stress: {stress} free-running races of 2 threads x 1-2 operations (push/swap/get/contains/len/to_vec/==/index/concat) on lists at a capacity boundary, each checked against every sequential order"));
             }
         }
         Some("tsan") => {
